@@ -104,13 +104,17 @@ func runOne(t *testing.T, spec *runSpec) (res *RunResult) {
 	cfg.TracePerStep = spec.TracePer
 	res.Config = cfg
 
+	var cl *Cluster
+	bodyDone := false
 	body := func(t *testing.T) {
 		defer func() {
 			if r := recover(); r != nil {
 				res.Error = fmt.Sprintf("%v\n%s", r, debug.Stack())
 			}
+			bodyDone = true
 		}()
 		c := newCluster(t, cfg, spec.Seed)
+		cl = c
 		defer uninstallHooks()
 		dir, err := os.MkdirTemp(workdirRoot(), fmt.Sprintf("babblesim-%d-", os.Getpid()))
 		if err != nil {
@@ -145,6 +149,24 @@ func runOne(t *testing.T, spec *runSpec) (res *RunResult) {
 			if r := recover(); r != nil {
 				msg := fmt.Sprintf("%v", r)
 				if strings.Contains(msg, "deadlock") || strings.Contains(msg, "blocked goroutines") {
+					if !bodyDone && cl != nil {
+						// the scheduler itself is blocked inside a step: every goroutine of
+						// the simulated system waits for another one
+						uninstallHooks()
+						last := "start"
+						if n := len(cl.steps); n > 0 {
+							last = cl.steps[n-1].String()
+						}
+						cl.violate(cl.wedgeProp(), "no-deadlock", "deadlock-inside-step", "all goroutines of the simulated system are blocked inside step %d (%s): a call into the code under test never returns", cl.stepNo, last)
+						res.Violations = cl.violations
+						res.Stats = cl.stats
+						res.Steps = cl.steps
+						res.TraceHash = cl.trace.sum()
+						if cl.workdir != "" {
+							os.RemoveAll(cl.workdir)
+						}
+						return
+					}
 					// goroutines the code under test gives no way to stop
 					if res.Stats != nil {
 						res.Stats.probe("bubble-leftover-goroutines")
